@@ -9,7 +9,7 @@ LEVEL = "proof"
 NEED_RELEASE = True
 COQ_TARGETS = ["Props/C03.vo", "Props/C03_fp.vo", "Props/C03_support.vo", "Props/C03_refuted.vo", "Props/C03_discrete.vo", "Props/C03_fl.vo"]
 PROPS_FILES = ["C03", "C03_fp", "C03_support", "C03_refuted", "C03_discrete", "C03_fl"]
-THEOREMS = ["C03_fl_source", "C03_triangular_source", "C03_triangular_fl_finite", "C03_frechet_refuted", "C03_frechet_except_known", "C03_gumbel_refuted", "C03_gumbel_except_known", "C03_beta_in_unit", "C03_gamma_nonneg", "C03_fingerprints",
+THEOREMS = ["C03_fl_source", "C03_triangular_source", "C03_triangular_fl_finite", "C03_pert_source", "C03_pert_fl_support", "C03_frechet_refuted", "C03_frechet_except_known", "C03_gumbel_refuted", "C03_gumbel_except_known", "C03_beta_in_unit", "C03_gamma_nonneg", "C03_fingerprints",
             "C03_geometric_support", "C03_zeta_support", "C03_zipf_support", "C03_poisson_support", "C03_binv_support", "C03_std_geometric_support",
             "C03_beta_final_in_unit", "C03_exp_tail_defined", "C03_lognormal_pos", "C03_fisher_f_nonneg", "C03_inverse_gaussian_pos", "C03_btpe_support", "C03_binomial_support", "C03_h2pe_branch_support", "C03_hypergeometric_support"]
 TRUSTED_BASE = [
